@@ -526,7 +526,7 @@ func c35Run(c *core.Ctx, raw json.RawMessage) {
 			return
 		}
 		if !mayChange {
-			if d := pre.Diff(post, false); d != "" {
+			if d := pre.Diff(post, false, false); d != "" {
 				c.Violate("state-changed", "%s is not an authorised state-changing request, yet: %s", what, d)
 				return
 			}
